@@ -45,6 +45,8 @@ def run(ctx, rep):
     defaults(prog, rep, cn)
     zip_rule_everywhere(prog, rep)
     ext_constructors(prog, rep)
+    from rules import axis
+    axis.run_for(prog, rep, 'R03.7', ['src/iterator', 'src/draw_target', 'core/src/draw_target'], 'colour streams are counted in rows of the area width (index = row * width + column)')
 
 
 def selff(prog, adt, name):
